@@ -121,6 +121,18 @@ def run(ctx):
         ro = [srv.gen_reopen_case(r) for _ in range(n)]
         srv.stream_pass(ctx, ro, 'all', 'correspondence:rtu-port-reopen:replies-and-unit-logs', 'multidrop.rtu-reopen', reopen=True)
         st['rtu-reopen-runs'] = n
+        # byte-level delivery with frames mostly for UNSERVED unit ids / broadcast, cut inside frames, decode level changes
+        # between the pieces (the waiting next_frame is dropped and re-entered): whatever the pieces look like, only frames
+        # of the stream that are addressed to a served unit are answered, and all of those are
+        sc = [srv.gen_stream_case(r, 'rtu' if r.random() < 0.5 else 'tcp', p_conf=0.35) for _ in range(n)]
+        srv.stream_pass(ctx, sc, 'all', 'correspondence:byte-stream-delivery:replies-and-unit-logs', 'multidrop.byte-stream')
+        st['byte-streams'] = n
+        # a broadcast write while ANOTHER THREAD holds one unit's handler lock: every served unit still executes it
+        # exactly once (the held one after the lock is released), nobody answers; the reads afterwards show it
+        hc = [srv.gen_hold_case(r, True) for _ in range(16 if ctx.quick() else 80)]
+        srv.stream_pass(ctx, hc, 'all', 'broadcast-write-while-a-handler-lock-is-held', 'multidrop.broadcast-while-locked')
+        st['broadcast-while-a-handler-lock-is-held'] = len(hc)
+        st['byte-streams:commands-between-pieces'] = sum(1 for _, s in sc if any(x.startswith('@') for x in s))
         st['rtu-reopen-runs:with-crc-error'] = sum(1 for c, s in ro if len([x for x in s if not x.startswith('@')]) > len(c[3]))
         st['rtu-reopen-runs:frames-to-unserved-units'] = sum(1 for c, _ in ro for f in c[3] if f[1] not in [u[0] for u in c[1]])
     cl = srv.coverage(ctx, cases, impl,
